@@ -828,7 +828,16 @@ func (p *P) reportOracle(r *core.Result, sc *scenario, data string, rejected map
 		}
 		named = map[string]bool{}
 		for _, e := range rep.Errors {
+			if named[filepath.Base(e.File)] {
+				r.Fail("report-names-failing-inputs", "validate json duplicate", fmt.Sprintf("%s: the JSON report lists %s more than once", sc, e.File))
+			}
 			named[filepath.Base(e.File)] = true
+		}
+		if !sc.Strict && rep.Results.Valid != nil && *rep.Results.Valid != (len(rep.Errors) == 0) {
+			r.Fail("report-names-failing-inputs", "validate json valid-flag", fmt.Sprintf("%s: results.valid=%v but the report lists %d errors", sc, *rep.Results.Valid, len(rep.Errors)))
+		}
+		if !sc.Strict && rep.Results.InvalidFiles != len(rep.Errors) {
+			r.Fail("report-names-failing-inputs", "validate json count", fmt.Sprintf("%s: results.invalid_files=%d but the report lists %d errors", sc, rep.Results.InvalidFiles, len(rep.Errors)))
 		}
 	case "sarif":
 		var rep struct {
